@@ -285,3 +285,19 @@ def dec(v):
             return frozenset(dec(x) for x in v["s"])
         raise ValueError(f"cannot decode {v}")
     return v
+
+
+def run_in_flagged_child(module: str, func: str, units, flags=("-O",), timeout=600):
+    """call  <module>.<func>(units)  in a child interpreter started with `flags` (e.g. -O / -OO: asserts and
+    `if __debug__:` blocks are compiled out) and return its (JSON) result"""
+    import json
+    import subprocess
+
+    code = ("import json,sys; from mc import common; common.bind_repo(); import importlib; "
+            f"m = importlib.import_module({module!r}); r = getattr(m, {func!r})(json.loads(sys.stdin.read())); "
+            "sys.stdout.write('\\n@@RESULT@@' + json.dumps(common.jsonable(r)))")  # fmt: skip
+    env = dict(os.environ, PYAB_REPO=REPO, PYTHONPATH=VERIF + os.pathsep + os.path.join(REPO, "src"), PYTHONDONTWRITEBYTECODE="1")
+    p = subprocess.run([sys.executable, *flags, "-c", code], input=json.dumps(units), capture_output=True, text=True, timeout=timeout, env=env, cwd=VERIF)
+    if p.returncode != 0 or "@@RESULT@@" not in p.stdout:
+        raise HarnessFault(f"child interpreter {flags} failed: {p.stderr[-600:]}")
+    return json.loads(p.stdout.split("@@RESULT@@", 1)[1])
